@@ -189,5 +189,16 @@ PROPS["C18"] = dict(
     assumptions=["a data race report or a crash of the test process counts as a violation", "the writer installed with Switch is goroutine-safe (log.Logger serialises writes)"],
 )
 
+PROPS["C19"] = dict(
+    pkg="c19", level="exploration",
+    rule="generated values and errors handed to the success/error handlers, run against a ResponseRecorder and on a loopback server queried by the library's ApiRequest; oracle: status, headers, envelope shape, "
+         "data JSON-equal to encoding/json of the value, JSONP wrapping, client reports an error for every error response and never for a success; per-check rules under coverage.checks",
+    quick=dict(timeout=600), thorough=dict(shards=8, timeout=3000),
+    technique="property-based testing (rapid): handler output checked against an envelope model and read back through the client half (round trip server -> client)",
+    level_text="Random exploration with shrinking over value trees, error kinds/codes/texts (including error texts that are JSON envelopes) and the callback parameter.",
+    level_note="Uses a loopback httptest server for the client half. Plain errors use HTTP statuses 400-599. Codes beyond 2^53 are only required to be reported as non-zero by the client.",
+    assumptions=["loopback networking is available in the sandbox (the pinned suite uses it as well)"],
+)
+
 NOT_APPLICABLE = {}
 HOOK_COMMITS = []
